@@ -275,13 +275,14 @@ fn leaf_accept(ty: &Ty, v: &JV, convert: bool, default: &RV) -> Vec<RV> {
 pub fn expect_json_column(col: &ColSpec, doc: Option<&JV>) -> Accept {
     let default = default_of(col);
     let Src::Json(steps) = &col.src else { return Accept::one(RV::Null, "not-json") };
-    let Some(doc) = doc else { return Accept::of(vec![RV::Null, default], "not-a-document") };
+    // absent path / not a document: the declared DEFAULT, NULL when none is declared
+    let Some(doc) = doc else { return Accept::one(default, "not-a-document") };
     let (found, dead_branch) = resolve2(doc, steps);
     let mut vals = Vec::new();
-    let situation = if found.is_empty() { vals.push(RV::Null); vals.push(default.clone()); "path-absent" } else {
+    let situation = if found.is_empty() { vals.push(default.clone()); "path-absent" } else {
         for f in &found { vals.extend(leaf_accept(&col.ty, f, col.modifier == Modifier::Convert, &default)); }
         // with duplicate keys another duplicate may lead nowhere
-        if dead_branch { vals.push(RV::Null); vals.push(default.clone()); }
+        if dead_branch { vals.push(default.clone()); }
         if found.len() > 1 || dead_branch { "duplicate-keys" } else { "path-present" }
     };
     if doc.has_unrepresentable_number() { vals.push(RV::Null); vals.push(default); }
